@@ -33,7 +33,7 @@ RULE = (
     "option strings: per grammar (timeout, csv-int, error codes, array lengths, trace events) valid strings from unparse of "
     "random values, hand-listed malformed strings and random character mutations; distinct by string. "
     "timeouts: every k ms for k in [0,10^5] through the real parse/unparse/parse plus decimal strings with units. "
-    "TOML: every Config option x every native toml value form (bare ints/floats/bools/arrays/tables/dates and quoted strings) through the real parse_str, then random TOML dicts (documented exclusion: generated documents never give array-lengths a falsy native value 0/0.0/false/[]/{} - that known finding is exercised by its directed corpus case only); natspec texts, devdoc/natspec annotated artifacts through the real with_natspec/with_devdoc/run_tests/_main loops."
+    "solver sequences: all ordered pairs of solver-registry entries, triples over the entries that share a binary, and random sequences of 3-6, each element a config stack whose effective --solver is that entry, resolved one after another in one process through the real get_solver_command (fake executables on PATH in a scratch dir) and compared with the rule applied to the stack alone. TOML: every Config option x every native toml value form (bare ints/floats/bools/arrays/tables/dates and quoted strings) through the real parse_str, then random TOML dicts (documented exclusion: generated documents never give array-lengths a falsy native value 0/0.0/false/[]/{} - that known finding is exercised by its directed corpus case only); natspec texts, devdoc/natspec annotated artifacts through the real with_natspec/with_devdoc/run_tests/_main loops."
 )
 TRUSTED = [
     "Driver/Config.lean string/token (de)serialisation and tools/props/c18.py canonicalisers and grammar oracles",
@@ -1702,6 +1702,103 @@ def check_char_classes(ctx):
     ctx.count("charclasses.codepoints", sys.maxunicode + 1 - 2048)
 
 
+def check_solver_sequences(ctx):
+    """`resolved_solver_command` is a function of the stack, not of history: sequences of config stacks are resolved in ONE process
+    through the real `halmos.solvers.get_solver_command` (fake executables for every registry binary on PATH, in a scratch
+    directory created and removed here); each resolved command must be what the rule gives for that stack alone: the effective
+    `--solver` (Spec.effective) -> that registry entry's binary + arguments, unless a non-empty `--solver-command` wins."""
+    import itertools
+    import shutil
+    import stat
+
+    hc = H()["hc"]
+    import halmos.solvers as hsol
+
+    registry = {name: (info.binary_name, list(info.arguments)) for name, info in hsol.SOLVERS.items()}
+    names = list(registry)
+    by_bin = {}
+    for n, (b, _) in registry.items():
+        by_bin.setdefault(b, []).append(n)
+    sharing = [n for n in names if len({tuple(registry[m][1]) for m in by_bin[registry[n][0]]}) > 1]
+    ctx.note(f"solver registry: {len(names)} entries, {len(by_bin)} binaries; entries sharing a binary with different arguments: {sharing}")
+    # sequences: all ordered pairs, then triples over the entries that share a binary (+ one other), then random longer ones
+    seqs = [list(p) for p in itertools.product(names, repeat=2)]
+    core = sharing + [n for n in names if n not in sharing][:1]
+    seqs += [list(t) for t in itertools.permutations(core, 3)][: ctx.scale(60, 400)]
+    for _ in range(ctx.scale(20, 200)):
+        seqs.append([ctx.rng.choice(names) for _ in range(ctx.rng.randint(3, 6))])
+    ctx.rng.shuffle(seqs)
+    # one stack per sequence element
+    items = []
+    for si, seq in enumerate(seqs):
+        for name in seq:
+            other = ctx.rng.choice(names)
+            r = ctx.rng.random()
+            layers = [("default", {"solver": "yices", "solver_command": ""})]
+            if r < 0.3:
+                layers += [("function_annotation", {"solver": name})]
+            elif r < 0.55:
+                layers += [("config_file", {"solver": other}), ("function_annotation", {"solver": name}), ("config_file", {"solver": other})]
+            elif r < 0.75:
+                layers += [("config_file", {"solver": name}), ("contract_annotation", {"solver": None, "loop": 3})]
+            elif r < 0.88:
+                # a weaker --solver-command does not win; a stronger empty one neither
+                layers += [("config_file", {"solver_command": "file-solver --x"}), ("command_line", {"solver": name, "solver_command": None})]
+            else:
+                # --solver-command at the same or a higher source wins
+                layers += [("contract_annotation", {"solver": name}), ("function_annotation", {"solver_command": f"custom-{name} --flag"})]
+            items.append((si, name, layers))
+    lines, at = [], []
+    for _, _, layers in items:
+        lines += stack_lines(layers) + ["specsolver", "solver"]
+        at.append(len(lines) - 2)
+    reps = ctx.lean("Config").ask(lines)
+    scratch = tempfile.mkdtemp(prefix="c18_solver_bins_")
+    old_path = os.environ.get("PATH", "")
+    history = []
+    try:
+        for b in by_bin:
+            fp = os.path.join(scratch, b)
+            with open(fp, "w") as fh:
+                fh.write("#!/bin/sh\nexit 0\n")
+            os.chmod(fp, os.stat(fp).st_mode | stat.S_IXUSR | stat.S_IXGRP | stat.S_IXOTH)
+        os.environ["PATH"] = scratch + os.pathsep + old_path
+        saved_warn = hc.warn
+        hc.warn = lambda *a, **k: None
+        try:
+            for (si, name, layers), k in zip(items, at):
+                spec, model = reps[k], reps[k + 1]
+                if spec.split(" ")[0] != model.split(" ")[0] or spec.split(" ")[1] != model.split(" ")[1]:
+                    raise RuntimeError(f"model and spec disagree on {layers}: {model} vs {spec}")
+                cfg = build_real(layers)[1]
+                got = real_call(lambda cfg=cfg: list(cfg.resolved_solver_command))
+                kind, tokv = spec.split(" ")[0], spec.split(" ")[1]
+                val = dec_u("u:" + tokv[2:]) if tokv.startswith("S:") else None
+                if kind == "command":
+                    want_desc, ok = shlex.split(val), got == ("ok", shlex.split(val))
+                else:
+                    b, args = registry[val]
+                    want_desc = [f"<path>/{b}"] + args
+                    ok = got[0] == "ok" and len(got[1]) >= 1 and os.path.basename(got[1][0]) == b and got[1][1:] == args
+                ctx.count(f"solver-seq.{kind}")
+                ctx.case(("solver-seq", tuple(seqs[si]), name, kind), nontrivial=True)
+                if not ok:
+                    blame = [h for h in history if h[1] == got[1]] if got[0] == "ok" else []
+                    key = "solver_command_rule:resolution-depends-on-history" if blame and kind == "solver" else "solver_command_rule:wrong-resolved-command"
+                    ctx.violation(key,
+                                  f"effective --solver {val!r}: resolved_solver_command = {got[1]!r}, the rule gives {want_desc} "
+                                  f"for layers (oldest first) {layers}" + (f"; this is the command resolved earlier in the process for --solver {blame[0][0]!r}" if blame else ""),
+                                  {"kind": "solver-seq", "sequence": seqs[si], "before": [h[0] for h in history[-6:]]})
+                if got[0] == "ok" and kind == "solver":
+                    history.append((val, got[1]))
+        finally:
+            hc.warn = saved_warn
+    finally:
+        os.environ["PATH"] = old_path
+        shutil.rmtree(scratch, ignore_errors=True)
+    ctx.count("solver-seq.sequences", len(seqs))
+
+
 # ------------------------------------------------------------------------------------------------ entry points
 
 
@@ -1747,6 +1844,8 @@ def run_one(ctx, data, pool=None):
     elif kind == "annot":
         contracts = [(n, ns, t, [tuple(f) for f in funs]) for n, ns, t, funs in data["contracts"]]
         check_artifacts(ctx, [([(s, dict(kw)) for s, kw in data["base"]], contracts)])
+    elif kind == "solver-seq":
+        check_solver_sequences(ctx)
     elif kind in ("load_config", "main"):
         # these are regenerated from the seed; run the whole sub-check
         (check_load_config if kind == "load_config" else check_main_loop)(ctx)
@@ -1774,6 +1873,7 @@ def correspond(ctx):
     section(check_stacks, ctx, small, "exhaustive<=3")
     section(check_stacks, ctx, exhaustive_solver_stacks(), "exhaustive-solver")
     ctx.extra["exhaustive_small_stacks"] = len(small)
+    section(check_solver_sequences, ctx)
     section(check_toml_native, ctx, pool)
     # random stacks
     n = ctx.scale(2000, 20000)
